@@ -2,7 +2,7 @@ package hsim
 
 func histProfile(name string, over map[string]int, f func(p *Profile)) *Profile {
 	p := &Profile{Name: name, MinSteps: 8, MaxSteps: 70, MaxConns: 6, MaxSessions: 3, W: weights(over),
-		PBurst: 0.05, PBlock: 0, PNoPose: 0.03, PClose: 0.04, PProbe: 0.06,
+		PBurst: 0.05, PBlock: 0, PNoPose: 0.03, PClose: 0.04, PProbe: 0.06, PDie: 0.3,
 		BlockOps: []string{"entity_add", "entity_delete", "custom", "comp_add", "comp_update", "pose", "type_add", "subscribe", "action", "asset_add", "joiner", "close", "switch"}}
 	if f != nil {
 		f(p)
@@ -57,7 +57,7 @@ func init() {
 		"distinct run digests with at least one accepted and one refused request", func(r *Result) bool { return trig(r) })
 	props["C05"] = histSpec("C05", histProfile("C05", map[string]int{"entity_delete": 14, "pose": 14, "asset_add": 12, "entity_add": 14}, func(p *Profile) { p.MinMembers = 2; p.PClose = 0.07 }),
 		"distinct run digests with an ownership decision (delete/pose/asset on an entity)", func(r *Result) bool { return trig(r, "op:entity_delete", "op:pose", "op:asset_add") })
-	props["C06"] = histSpec("C06", histProfile("C06", map[string]int{"switch": 6, "entity_add": 16, "comp_add": 10, "action": 8, "asset_add": 8, "subscribe": 6}, func(p *Profile) { p.MinMembers = 2; p.PClose = 0.1; p.PProbe = 0.1 }),
+	props["C06"] = histSpec("C06", histProfile("C06", map[string]int{"switch": 6, "entity_add": 16, "comp_add": 10, "action": 8, "asset_add": 8, "subscribe": 6}, func(p *Profile) { p.MinMembers = 2; p.PClose = 0.1; p.PProbe = 0.1; p.PDie = 0.5 }),
 		"distinct run digests with a departure of a member that owned entities", func(r *Result) bool { return trig(r, "departure", "server_ended") })
 	props["C12"] = histSpec("C12", histProfile("C12", map[string]int{"type_add": 10, "comp_add": 16, "comp_delete": 9, "comp_update": 10, "comp_list": 8, "entity_delete": 8, "type_get_name": 3, "type_get_id": 3}, func(p *Profile) { p.PClose = 0.06; p.PBlock = 0.05; p.BlockOps = []string{"type_add", "type_add", "comp_add", "comp_delete", "entity_delete"} }),
 		"distinct run digests with an accepted component operation", func(r *Result) bool { return trig(r, "op:comp_add") })
